@@ -65,6 +65,7 @@ type c12store struct {
 	watchPm    int  // tape-chosen watch fault rate per notification (per mille)
 	crashes    int
 	maxCrash   int
+	perturbed  bool // a crash, a store error or a watch fault has fired in this run
 	// oracle hooks
 	onDeliver func(w *c12watcher, ev *c12event)
 	preGet    func(w *c12watcher, ev *c12event)
@@ -124,6 +125,7 @@ func (h *c12handle) plan(kind string) (fail, crashBefore, crashAfter bool) {
 	}
 	if crashBefore || crashAfter {
 		st.crashes++
+		st.perturbed = true
 		s.Fault("crash.process")
 		n := idx
 		if n > 9 {
@@ -147,6 +149,7 @@ func (h *c12handle) plan(kind string) (fail, crashBefore, crashAfter bool) {
 		fail = true
 	}
 	if fail {
+		st.perturbed = true
 		s.Fault("store.err." + kind)
 		h.injected = append(h.injected, kind)
 	}
@@ -313,16 +316,19 @@ func (st *c12store) notify(from *c12handle, key string, value []byte, deleted bo
 		switch fault {
 		case 1:
 			ev.delay = time.Duration(1+s.Choose(simrt.StNet, 50)) * time.Millisecond
+			st.perturbed = true
 			s.Fault("store.watch.delay")
 			w.h.wDelay = true
 			w.q = append(w.q, ev)
 		case 2:
 			ev.dup = true
+			st.perturbed = true
 			s.Fault("store.watch.dup")
 			w.h.wDup = true
 			w.q = append(w.q, ev)
 		case 3:
 			// overtaken by the next notification for this watcher
+			st.perturbed = true
 			if w.hold == nil {
 				w.hold = ev
 				continue
